@@ -331,13 +331,11 @@ Lemma fwd_squeeze_order_preserving sh arg op :
 Proof.
   assert (ID : g_in (id_op sh) = sh /\ order_preserving (id_op sh) /\ size (g_out (id_op sh)) = size sh)
     by (repeat split; auto; apply id_op_order_preserving).
-  unfold fwd_squeeze. destruct arg as [|z|l].
-  - destruct (length sh =? 0). intros E; inversion E; subst; auto. apply np_squeeze_order_preserving.
-  - destruct (length sh =? 0). intros E; inversion E; subst; auto.
-    destruct (norm_axis (length sh) z) as [k|]; try discriminate.
-    destruct (nth k sh 0 =? 1). apply np_squeeze_order_preserving. intros E; inversion E; subst; auto.
-  - destruct (norm_axes (length sh) l) as [ks|]; try discriminate.
-    destruct (filter _ l) as [|z l'] eqn:Fl. intros E; inversion E; subst; auto. apply np_squeeze_order_preserving.
+  unfold fwd_squeeze. destruct (sq_axes arg) as [l|].
+  - destruct (norm_axes (Nat.max (length sh) 1) l) as [ks|]; try discriminate.
+    destruct (nodupb ks); cbn [negb]; try discriminate.
+    destruct (filter _ ks) as [|k ks'] eqn:Fl. intros E; inversion E; subst; auto. apply np_squeeze_order_preserving.
+  - apply np_squeeze_order_preserving.
 Qed.
 
 Theorem squeeze_inverse sh arg op :
